@@ -61,6 +61,7 @@ struct ChkptView
 struct RunCtl
 {
     u64 P = 0;                  // 0 serial API, >= 1 MPI API under the shim
+    u64 comm_split = 0;         // > 0: ranks [0, a) and [a, P) form two sub-communicators, each runs its own job
     int cbk = 0;                // 0 built-in, 1 scripted user callback
     int mode = 0;
     ld target = 0;
